@@ -62,6 +62,10 @@ FIXED = [
      'online get_value(): KeyError for a name whose node lies below the second occurrence of a repeated sub-formula (regression window of F04, closed)'),
     ('F21', ['C12'], 'fix: after pastify() get_value() of an input variable returned its delayed copy',
      "after pastify() get_value('x') of an input variable returned the delayed once[d,d](x) (-inf, then old samples) instead of the supplied data"),
+    ('F09d', ['C08'], 'fix: dense-time monitors converted interval bounds to the default unit with the inverse factor',
+     'dense time_unit_transformer multiplied by U[default]/U[bound unit] (inverted): once[0,1000ms] looked 10^6 s back'),
+    ('F09e', ['C08', 'C17'], 'fix: pastify() accepted future bounds that are not multiples',
+     'pastify() turned eventually[1.4:3.4] (period 1 s) into once[0,2] and the monitor returned values instead of RTAMTException'),
 ]
 
 OPEN = [
